@@ -110,12 +110,15 @@ function looksLikeNamespace(v) {
   try { if (util.types.isModuleNamespaceObject(v)) return true; } catch (e) {}
   const keys = Object.getOwnPropertyNames(v);
   if (keys.length === 0) return false;
+  let getters = 0;
   for (let i = 0; i < keys.length; i++) {
     if (keys[i] === '__esModule') continue;
     const d = Object.getOwnPropertyDescriptor(v, keys[i]);
-    if (!d || !d.get) return false;
+    if (!d) return false;
+    if (d.get) { getters++; continue; }
+    if (keys[i] !== 'default') return false; // interop objects carry `default` as a plain data property
   }
-  return true;
+  return getters > 0;
 }
 
 function nsValue(ns, depth) {
